@@ -7,7 +7,7 @@ import ast
 from dataclasses import dataclass, field
 from typing import Dict, Iterable, List, Optional, Sequence, Set, Tuple
 
-from .model import AnalysisError, Callee, FunctionInfo, Program, dotted, norm_text
+from .model import EXC_ALIASES, AnalysisError, Callee, FunctionInfo, Program, dotted, norm_text
 
 Pending = List[Tuple[int, str]]
 
@@ -57,10 +57,15 @@ def handler_classes(h: ast.ExceptHandler) -> List[str]:
     if h.type is None:
         return ["BaseException"]
     elts = h.type.elts if isinstance(h.type, ast.Tuple) else [h.type]
-    out = []
+    out: List[str] = []
     for e in elts:
+        if isinstance(e, ast.Starred):
+            e = e.value
         dn = dotted(e)
-        out.append(dn if dn else norm_text(e))
+        if dn and dn.split(".")[-1] in EXC_ALIASES:
+            out.extend(EXC_ALIASES[dn.split(".")[-1]])
+        else:
+            out.append(dn if dn else norm_text(e))
     return out
 
 
@@ -103,6 +108,8 @@ class CFG:
         self.nodes: List[Node] = []
         self.succ: Dict[int, List[Tuple[int, str]]] = {}
         self.pred: Dict[int, List[Tuple[int, str]]] = {}
+        self.inline_returns: Dict[int, List[Tuple[Optional[ast.AST], int]]] = {}
+        self.inlined_calls: Dict[int, FunctionInfo] = {}
         self.entry = self._new("entry", None, None, 0, ())
         self.exit = self._new("exit", None, None, 0, ())
         self.raise_exit = self._new("raise_exit", None, None, 0, ())
@@ -170,6 +177,13 @@ class CFGBuilder:
         self._route_cache: Dict[Tuple, int] = {}
         self._dispatch: Dict[int, int] = {}  # frame uid -> dispatch node id
         self._loop_info: Dict[int, Dict[str, object]] = {}
+        self._inline_join: Dict[int, int] = {}
+        self._inline_cond: Dict[int, Tuple[int, int]] = {}
+        self._want_cond = False
+        self._cond_result: Optional[Tuple[Pending, Pending]] = None
+        self._inline_stack: List[str] = [fn.qname]
+        self._pre: Dict[int, Callee] = {}  # id(call ast in an inlined copy) -> callee resolved in the helper's own context
+        self._inl_n = 0
 
     # ------------------------------------------------------------- plumbing
     def new(self, kind: str, a: Optional[ast.AST], stmt: Optional[ast.AST]) -> int:
@@ -225,6 +239,8 @@ class CFGBuilder:
     def _needs_cleanup(fr: Frame) -> bool:
         if fr.kind == "with":
             return True
+        if fr.kind == "inline":
+            return False
         if fr.kind == "try":
             return bool(fr.node.finalbody) and fr.part != "final"  # type: ignore[attr-defined]
         return False
@@ -233,7 +249,7 @@ class CFGBuilder:
         """Target node for an abrupt completion of `kind` ('exc'|'return'|'break'|'continue')
         raised inside `frames`. Returns (node, edge label)."""
         key = (kind, tuple(f.key() for f in frames), loop_uid)
-        label = {"exc": "exc", "return": "norm", "break": "norm", "continue": "back"}[kind]
+        label = {"exc": "exc", "return": "norm", "return_t": "norm", "return_f": "norm", "break": "norm", "continue": "back"}[kind]
         if key in self._route_cache:
             return self._route_cache[key], label
         # find the terminator
@@ -244,6 +260,12 @@ class CFGBuilder:
             fr = frames[i]
             if kind == "exc" and fr.kind == "try" and fr.part == "body" and fr.node.handlers:  # type: ignore[attr-defined]
                 final_target = self.dispatch_node(frames[: i + 1])
+                break
+            if kind in ("return", "return_t", "return_f") and fr.kind == "inline":
+                if kind == "return" or fr.uid not in self._inline_cond:
+                    final_target = self._inline_join[fr.uid]
+                else:
+                    final_target = self._inline_cond[fr.uid][0 if kind == "return_t" else 1]
                 break
             if kind in ("break", "continue") and fr.kind == "loop" and fr.uid == loop_uid:
                 info = self._loop_info[fr.uid]
@@ -284,6 +306,7 @@ class CFGBuilder:
         if isinstance(e, ast.Lambda):
             return pending
         if isinstance(e, ast.Call):
+            want_cond, self._want_cond = self._want_cond, False
             # func expression (receiver) first, then args, then the call itself
             if isinstance(e.func, ast.Attribute):
                 pending = self.expr(e.func.value, pending, stmt, flags)
@@ -296,8 +319,19 @@ class CFGBuilder:
             n = self.new("call", e, stmt)
             node = self.g.nodes[n]
             node.flags |= flags
-            node.callee = self.prog.resolve_call(e, self.fn)
+            node.callee = self._pre.get(id(e)) or self.prog.resolve_call(e, self.fn)
             self.connect(pending, n)
+            target = self._inline_target(node.callee)
+            self._want_cond = want_cond
+            if target is not None:
+                node.flags.add("inlined")
+                if self._want_cond:
+                    # the call IS a branch condition: keep the correlation between the helper's return sites and the
+                    # branch outcome (each `return <expr>` becomes a test of <expr>)
+                    self._want_cond = False
+                    self._cond_result = self._inline(e, target, n, stmt, as_cond=True)  # type: ignore[assignment]
+                    return []
+                return self._inline(e, target, n, stmt)  # type: ignore[return-value]
             if not self._infallible_call(node):
                 node.may_raise = True
                 t, l = self.route("exc", self.frames)
@@ -341,6 +375,110 @@ class CFGBuilder:
                 pending = self.expr(child, pending, stmt, flags)
         return pending
 
+    # ------------------------------------------------------------- inlining
+    def _inline_target(self, c: Optional[Callee]) -> Optional[FunctionInfo]:
+        """A helper that did not exist when the rules were written is transparent: its body is analysed in place."""
+        if c is None or c.kind != "func" or len(c.funcs) != 1:
+            return None
+        t = c.funcs[0]
+        if self.prog.is_known(t) or isinstance(t.node, ast.Lambda) or t.is_property:
+            return None
+        if t.qname in self._inline_stack or len(self._inline_stack) > 3:
+            return None
+        if any(isinstance(x, (ast.Yield, ast.YieldFrom, ast.Await)) for x in ast.walk(t.node)):
+            return None
+        return t
+
+    def _inline(self, call: ast.Call, t: FunctionInfo, marker: int, stmt: ast.AST, as_cond: bool = False):
+        import copy
+        self._inl_n += 1
+        k = self._inl_n
+        sfx = f"__i{k}"
+        orig_body = list(t.node.body)  # type: ignore[attr-defined]
+        body = copy.deepcopy(orig_body)
+        # resolve the calls of the helper in ITS context, before renaming
+        for o_st, c_st in zip(orig_body, body):
+            for o, c in zip(ast.walk(o_st), ast.walk(c_st)):
+                if isinstance(o, ast.Call):
+                    self._pre[id(c)] = self._pre.get(id(o)) or self.prog.resolve_call(o, t)
+        # alpha-rename the helper's parameters and locals
+        params = [p for p in t.params]
+        caller_self = self.fn.self_name()
+        callee_self = t.self_name() if (t.cls is not None and not t.is_static) else None
+        recv = call.func.value if isinstance(call.func, ast.Attribute) else None
+        keep_self = callee_self is not None and isinstance(recv, ast.Name) and recv.id == caller_self and callee_self == caller_self
+        local_names = {p.name for p in params}
+        for x in ast.walk(t.node):
+            if isinstance(x, ast.Name) and isinstance(x.ctx, ast.Store):
+                local_names.add(x.id)
+            elif isinstance(x, ast.ExceptHandler) and x.name:
+                local_names.add(x.name)
+        if keep_self and callee_self:
+            local_names.discard(callee_self)
+        stored = {x.id for x in ast.walk(t.node) if isinstance(x, ast.Name) and isinstance(x.ctx, ast.Store)}
+        # bind parameters: a parameter that is never re-assigned and whose argument is a plain variable is an ALIAS of that
+        # variable (the common shape of an extracted helper) - it is substituted, everything else gets a fresh name
+        pos = [q for q in params if q.kind == "pos"]
+        if callee_self is not None and pos and pos[0].name == callee_self:
+            pos = pos[1:]
+        alias: Dict[str, str] = {}
+        binds: List[Tuple[str, ast.AST]] = []
+        if callee_self is not None and not keep_self and recv is not None:
+            binds.append((callee_self + sfx, recv))
+        for q in [q for q in params if q.kind in ("pos", "kwonly") and not (callee_self and q.name == callee_self)]:
+            arg: Optional[ast.AST] = None
+            for kw in call.keywords:
+                if kw.arg == q.name:
+                    arg = kw.value
+            if arg is None and q.kind == "pos":
+                idx = pos.index(q) if q in pos else -1
+                if 0 <= idx < len(call.args) and not isinstance(call.args[idx], ast.Starred):
+                    arg = call.args[idx]
+            if arg is None:
+                arg = q.default if q.default is not None else ast.Constant(value=None)
+            if isinstance(arg, ast.Name) and q.name not in stored:
+                alias[q.name] = arg.id
+            else:
+                binds.append((q.name + sfx, arg))
+        for st in body:
+            for x in ast.walk(st):
+                if isinstance(x, ast.Name) and x.id in alias:
+                    x.id = alias[x.id]
+                elif isinstance(x, ast.Name) and x.id in local_names:
+                    x.id = x.id + sfx
+                elif isinstance(x, ast.ExceptHandler) and x.name in local_names:
+                    x.name = x.name + sfx
+        pending: Pending = [(marker, "norm")]
+        for nm, arg in binds:
+            b = ast.Assign(targets=[ast.Name(id=nm, ctx=ast.Store())], value=arg)
+            ast.copy_location(b, call)
+            ast.fix_missing_locations(b)
+            nb = self.new("stmt", b, b)
+            self.g.nodes[nb].flags.add("inline-bind")
+            self.connect(pending, nb)
+            pending = [(nb, "norm")]
+        uid = self._next_uid()
+        join = self.new("join", None, stmt)
+        self._inline_join[uid] = join
+        if as_cond:
+            tj = self.new("join", None, stmt)
+            self._inline_cond[uid] = (tj, join)  # falling off the end returns None: the false side
+        self.g.inline_returns.setdefault(id(call), [])
+        self.g.inlined_calls[id(call)] = t
+        self._inline_stack.append(t.qname)
+        self.frames.append(Frame("inline", call, "body", None, uid))
+        saved_fn = self.fn
+        try:
+            out = self.stmts(body, pending)
+        finally:
+            self.frames.pop()
+            self._inline_stack.pop()
+            self.fn = saved_fn
+        self.connect(out, join)
+        if as_cond:
+            return [(self._inline_cond[uid][0], "norm")], [(join, "norm")]
+        return [(join, "norm")]
+
     def _cond_expr(self, e: ast.AST, pending: Pending, stmt: ast.AST, flags: Set[str]) -> Pending:
         """Calls inside `e` may or may not run: route around them."""
         before = list(pending)
@@ -382,7 +520,15 @@ class CFGBuilder:
         if isinstance(e, ast.UnaryOp) and isinstance(e.op, ast.Not):
             t, f = self.cond(e.operand, pending, stmt)
             return f, t
-        pending = self.expr(e, pending, stmt)
+        if isinstance(e, ast.Call):
+            self._want_cond, self._cond_result = True, None
+            pending = self.expr(e, pending, stmt)
+            self._want_cond = False
+            if self._cond_result is not None:
+                res, self._cond_result = self._cond_result, None
+                return res
+        else:
+            pending = self.expr(e, pending, stmt)
         b = self.new("branch", e, stmt)
         self.connect(pending, b)
         if expr_may_raise(e):
@@ -442,7 +588,24 @@ class CFGBuilder:
             n = self.simple(st, pending, [st.value])
             return [(n, "norm")]
         if isinstance(st, ast.Return):
-            n = self.simple(st, pending, [st.value], "return")
+            inl = next((fr for fr in reversed(self.frames) if fr.kind == "inline"), None)
+            if inl is not None and inl.uid in self._inline_cond:
+                val = st.value if st.value is not None else ast.copy_location(ast.Constant(value=None), st)
+                tp, fp = self.cond(val, pending, st)
+                for pend, kind in ((tp, "return_t"), (fp, "return_f")):
+                    if not pend:
+                        continue
+                    n = self.new("stmt", st, st)
+                    self.g.nodes[n].flags.add("inline-return")
+                    self.connect(pend, n)
+                    self.g.inline_returns.setdefault(id(inl.node), []).append((st.value, n))
+                    t, l = self.route(kind, self.frames)
+                    self.g.add_edge(n, t, l)
+                return []
+            n = self.simple(st, pending, [st.value], "return" if inl is None else "stmt")
+            if inl is not None:
+                self.g.nodes[n].flags.add("inline-return")
+                self.g.inline_returns.setdefault(id(inl.node), []).append((st.value, n))
             t, l = self.route("return", self.frames)
             self.g.add_edge(n, t, l)
             return []
@@ -589,6 +752,26 @@ class CFGBuilder:
         if not items:
             return self.stmts(st.body, pending)  # type: ignore[attr-defined]
         it = items[0]
+        ce = it.context_expr
+        if isinstance(ce, ast.Call) and (dotted(ce.func) or "").split(".")[-1] == "suppress" and ce.args and it.optional_vars is None:
+            # `with contextlib.suppress(X, Y): body`  ==  try: body  except (X, Y): pass
+            typ: ast.AST = ce.args[0] if len(ce.args) == 1 else ast.Tuple(elts=list(ce.args), ctx=ast.Load())
+            h = ast.ExceptHandler(type=typ, name=None, body=[ast.Pass()])
+            inner: List[ast.stmt]
+            if len(items) > 1:
+                w = ast.With(items=items[1:], body=st.body)  # type: ignore[attr-defined]
+                ast.copy_location(w, st)
+                inner = [w]
+            else:
+                inner = list(st.body)  # type: ignore[attr-defined]
+            tr = ast.Try(body=inner, handlers=[h], orelse=[], finalbody=[])
+            ast.copy_location(tr, st)
+            ast.copy_location(h, st)
+            ast.fix_missing_locations(tr)
+            key = ("suppress", id(st), id(it))
+            cache = self.__dict__.setdefault("_synth", {})
+            tr = cache.setdefault(key, tr)
+            return self._try(tr, pending)
         pending = self.expr(it.context_expr, pending, st)
         enter = self.new("with_enter", it, st)
         self.connect(pending, enter)
